@@ -2455,7 +2455,16 @@ class NameCheckVisitor(node_visitor.ReplacingNodeVisitor):
                     if len(statement.targets) == 1 and not isinstance(
                         statement.targets[0], (ast.List, ast.Tuple)
                     ):
-                        replacement = self.remove_node(unused, statement)
+                        if all(
+                            isinstance(node, _NODES_WITHOUT_EFFECT)
+                            for node in ast.walk(statement.value)
+                        ):
+                            replacement = self.remove_node(unused, statement)
+                        else:
+                            # evaluating the value may do something: keep it as a statement
+                            replacement = self.replace_node(
+                                statement, ast.Expr(value=statement.value), statement
+                            )
                 elif isinstance(statement, ast.comprehension):
                     if isinstance(statement.target, ast.Tuple):
                         if not _all_names_unused(
@@ -6040,6 +6049,9 @@ def _all_names_unused(
         if elt not in unused_name_nodes:
             return False
     return True
+
+
+_NODES_WITHOUT_EFFECT = (ast.Constant, ast.Name, ast.Tuple, ast.expr_context)
 
 
 def _contains_node(elts: Iterable[ast.AST], node: ast.AST) -> bool:
